@@ -20,6 +20,7 @@ RULE = (
     'one frame in an X->Y transit state and at least one pair inside the cut-off; distinct = SHA-1 of (positions, '
     'states, labels, cut-off, resolution).'
 )
+RULE += ' Added in rounds 5-10: per-atom species variants of one symbol; recurring cut-offs with results scribbled on after use; label vocabularies whose natural and string order differ; skewed cells with cut-offs between half the perpendicular width and half the shortest edge; one system with 1.8e7 pair distances (additivity over frame ranges + brute force on single frames).'
 ASSUMPTIONS = [
     'samples whose distance lies within 1e-7 A of a bin edge may fall in either neighbouring bin (counted in the evidence)',
     'bin 0 may include or exclude the zero self-distances',
